@@ -28,7 +28,8 @@ def run(run, only=None):
                   "arrival order, losers reporting late or not", "scripts": "solve / get_model / get_value / push / add / solve / pop / "
                   "add / solve ; is_sat then add then solve"}
     run.outside = ["OS-level races between real member processes (timing gaps, signal latency, a loser reading the shared "
-                   "control pipe between selection and terminate())", "the child-side loop _run_solver"]
+                   "control pipe between selection and terminate())", "the child-side loop _run_solver (its members are modelled by their outcome; the text-interface member's reaction to a dead "
+                   "solver process is the member-death family)"]
     jobs = []
     for n in members:
         for script in ("cycle", "oneshot"):
@@ -38,7 +39,22 @@ def run(run, only=None):
 
     def describe(p, r):
         return "%s with schedule codes %r: wrong verdict / hang / unusable model" % (p["name"], r["args"])
-    run_xh_family(run, "xh-schedule", jobs, describe, lambda p, a: "portfolio/%s" % p["script"], "xh")
-    twin_check(run, "xh-schedule", jobs[:1])
+    if only:
+        jobs = [j for j in jobs if any(o in j[3]["name"] for o in only)]
+    if jobs:
+        run_xh_family(run, "xh-schedule", jobs, describe, lambda p, a: "portfolio/%s" % p["script"], "xh")
+        twin_check(run, "xh-schedule", jobs[:1])
+    if not only or "member-death" in only:
+        # a text-interface member whose external solver process dies must fail (so that the parent sees a failing member), never spin
+        djobs = [("props.c19_xh", "h_death", 300.0, {"name": "member-death/text-interface"})]
+        run.functions.append({"module": "pysmt/smtlib/solver.py", "what": "SmtLibSolver reply reading (_get_answer, get_value) at end-of-file",
+                              "sha1": core.src_sha("pysmt/smtlib/solver.py")})
+        run_xh_family(run, "xh-member-death", djobs,
+                      lambda p, r: "SmtLibSolver member whose solver process dies after [commands answered, broken pipe on write, script] = %r "
+                                   "does not fail promptly (returns normally or keeps reading at end-of-file)" % (r["args"],),
+                      lambda p, a: "portfolio/member-death", "xh")
+        twin_check(run, "xh-member-death", djobs)
+        run.bounds["member death"] = ("external solver process of a text-interface member dies after 0..11 answered commands (symbolic), "
+                                      "writes afterwards fail or are swallowed (symbolic), 3 call scripts: the call raises, within 200 reads")
     run.nontrivial.update(["a", "b"])
     run.extra["distinct_nontrivial"] = max(2, len(jobs))
